@@ -370,7 +370,7 @@ impl Check for C13 {
     fn cases(&self, tier: Tier) -> u32 {
         match tier {
             Tier::Quick => 600,
-            Tier::Thorough => 12_000,
+            Tier::Thorough => 6_000,
         }
     }
     fn workers(&self) -> usize {
